@@ -39,8 +39,9 @@ def run(ctx):
     ctx.assume("stages implemented by onnx_ir (Inline, DCE, lift constants / subgraph initializers, dedup, CSE, OutputFix, NameFix) and the "
                "rewrite rules (C05/C07) are covered differentially only; float outputs are compared up to round-off (tight for integer-valued "
                "data flows), NaN / infinities must coincide, ints / bools / strings bit-equal")
-    ctx.check_props()
     info = regenerate(ctx)
+    ctx.check_props()
+    ctx.build(["Opt/FoldInst.vo"])          # the executable instance used by the correspondence
     rng = ctx.rng
     quick = ctx.tier == "quick"
 
